@@ -363,8 +363,12 @@ def _is_safe_output_type_change(
             and _is_safe_output_type_change(old_type, new_type.type)
         )
     elif isinstance(old_type, ListType):
+        # Items are read back by clients (must not become nullable) and this
+        # comparison has always reported items becoming non-null: the item
+        # types must be a safe change in both directions.
         return (
             isinstance(new_type, ListType)
+            and _is_safe_output_type_change(old_type.type, new_type.type)
             and _is_safe_input_type_change(old_type.type, new_type.type)
         ) or (
             isinstance(new_type, NonNullType)
